@@ -5,7 +5,7 @@ from . import common as C
 MANIFEST = dict(
    technique="Lean 4 proof about a transcription of FlattenError/TreeifyError/FormatError/PrettifyError/ToDotPath (count, placement and path-injectivity theorems over all issue trees and all paths) + whole-table theorems over a go/ast translation of gozod.go's re-exports and errors.go's thin entry points + differential correspondence of the model and of an independent grouping oracle against the real formatters, through every exported entry point, on generated and Parse-produced ZodErrors",
    text="Theorems c19_flatten_count/_place, c19_tree_count/_place, c19_format_count (full since cef00ff), c19_format_place (exact outside the reserved key \"_errors\", modulo reserved segments for every error: c19_format_place_strip; a witness theorem shows the misplacement inside that region), c19_prettify_count/_place, c19_nonempty prove for every issue list (any codes, typed paths, union branches and sub-issues nested to any depth) that each report carries exactly one message per issue (per nested leaf for wrapper issues in FormatError), filed at the position the path denotes. c19_dotpath_esc_injective proves for ToDotPath as it stands (quoted keys escaped, since c7ce73a) that two different paths of any length with arbitrary keys never render alike, so PrettifyError, PrettifyErrorWithFormatter and err.Error() (c19_error_eq_prettify) name every position unambiguously. c19_exports_are_internal/_cover, c19_wrappers_as_expected, c19_errors_go_accounted and c19_error_method_as_expected are decided over a table regenerated from gozod.go and internal/issues/errors.go on every run: each exported formatter is the internal function of the same name, each thin entry point hands the unchanged error to the transcribed function with defaultIssueMapper of the right formatter, and no function of errors.go is unaccounted for. The hand-written model is tied to /repo by running model, spec oracle and the real formatters — through the plain entry points, err.Error(), the WithMapper/WithFormatter variants with custom mappers and formatters, and SetFormatter — on thousands of synthesised issue trees and real failing Parse calls and comparing canonical renderings; structure fingerprints of the 16 Go functions involved aim the run when one is edited.",
-   note="Trusted: Lean kernel; axioms propext/Classical.choice/Quot.sound only; the Go harness, hex line protocol and comparer; the go/ast translator (source text only). The model is a hand transcription validated on generated cases. Issue.msg stands for mapper(issue): the default formatter's text is taken from the library, custom mappers/formatters are computed by the harness. Paths are string keys and non-negative ints; other element types, negative ints and a nil *ZodError are outside the model. FormatError's reserved key \"_errors\" is an open known finding for the placement only (since cef00ff no message is lost; the placement cannot be repaired within the report shape).",
+   note="Round 4b: every ZodError — path elements of any Go type (the library files Map keys and Set elements of any comparable type in paths: Gen/C19PathTypes.lean, regenerated with go/types, c19_path_types_covered / _any_sources) and nil errors are in the model (Model/IssuesGo.lean), the spec, the generator and the Parse stream; c19_go_tree_place, c19_go_never_panics, c19_go_*_count are the full statements for them, by refinement to the position-level model (flattenGo_eq, formatGo_eq, treeifyGo_eq); c19_parse_dotpath / c19_parse_dotpath_go: the dot notation parses back to the path (injectivity is a corollary). Fixed in /repo: c65f4c0 (TreeifyError panic on negative ints, other types ignored), 6ff3a13 (ToDotPath [%v]), e8b2b50 (nil *ZodError). Trusted: Lean kernel; axioms propext/Classical.choice/Quot.sound only; the Go harness, hex line protocol and comparer; the go/ast translator (source text only). The model is a hand transcription validated on generated cases. Issue.msg stands for mapper(issue): the default formatter's text is taken from the library, custom mappers/formatters are computed by the harness. fmt's %v of a path element of another type is computed by the harness with the same call (trusted). FormatError's reserved key \"_errors\" is an open known finding for the placement only (since cef00ff no message is lost; the placement cannot be repaired within the report shape).",
    design="DESIGN.md §5 C19; notes/C19.md")
 
 MODULES = ["Gozod.Proofs.C19", "Gozod.Proofs.C19Dot", "Gozod.Proofs.C19Exports", "Gozod.Proofs.C19Go", "Gozod.Proofs.C19Parse", "Gozod.Proofs.C19PathTypes"]
@@ -194,7 +194,8 @@ def run(res):
         "FlattenErrorWithMapper/TreeifyErrorWithMapper with a custom mapper, ...WithFormatter(e, e.Formatter()). distinct = distinct issue trees.")
     res.assumptions += [
         "Issue.msg stands for mapper(issue): for the default mapper the harness asks the library for it (empty messages occur in 15 % of the lists), for custom mappers/formatters it computes it itself",
-        "path elements are strings or non-negative ints (anything else is counted as skipped in the input distribution)",
+        "a path element that is neither string nor int is represented by its fmt %v text (all four formatters read it through %v only); the position it denotes is the key of that text (reading decision El.pos, notes/C19.md)",
+        "a nil *ZodError carries no issue: its reports are those of an error without issues; (*ZodError)(nil).Error() == \"\" is not a report",
         "FormatError replaces wrapper issues (invalid_union with branch errors, invalid_key/invalid_element with sub-issues) by their nested leaves with the wrapper's path as prefix (reading decision, notes/C19.md)",
     ]
     return res.finish()
